@@ -4,6 +4,7 @@ import (
 	"bufio"
 	"encoding/json"
 	"fmt"
+	"hash/fnv"
 	"os"
 	"path/filepath"
 	"runtime"
@@ -112,6 +113,7 @@ type Stats struct {
 	Tier      string         `json:"tier"`
 	Cases     int            `json:"cases"`
 	Distinct  int            `json:"distinct_signatures"`
+	DistinctCases int        `json:"distinct_nontrivial_cases"`
 	Counts    map[string]int `json:"counts"`
 	Failures  []Failure      `json:"failures"`
 	Samples   []string       `json:"samples"`
@@ -200,6 +202,21 @@ func RunSuite(name string, seed uint64, tier, repo, dir string) error {
 		}
 	}
 	st.Distinct = len(sigs)
+	// distinct non-trivial cases: different case lines whose observation shows that the modelled code was reached
+	// past input validation (something was delivered, drawn, encoded or computed: not a bare early error or nothing)
+	seen := map[uint64]struct{}{}
+	for _, s := range shards {
+		for i, c := range s.cases {
+			o := s.obs[i]
+			if o == "-" || strings.HasPrefix(o, "# ") || strings.HasPrefix(o, "- # ") || o == "" {
+				continue
+			}
+			h := fnv.New64a()
+			h.Write([]byte(c))
+			seen[h.Sum64()] = struct{}{}
+		}
+	}
+	st.DistinctCases = len(seen)
 	st.NFailures = len(st.Failures)
 	if len(st.Failures) > 50 {
 		sort.SliceStable(st.Failures, func(i, j int) bool { return len(st.Failures[i].Case) < len(st.Failures[j].Case) })
